@@ -59,7 +59,7 @@ func (t *verifFakeRT) RoundTrip(req *http.Request) (*http.Response, error) {
 		for n := verifInterims(); n > 0; n-- {
 			// deliver the interim response the way a real Transport does: through the client trace
 			if tr := httptrace.ContextClientTrace(req.Context()); tr != nil && tr.Got1xxResponse != nil {
-				tr.Got1xxResponse(http.StatusEarlyHints, textproto.MIMEHeader{verifInterimHeader: []string{"</style.css>; rel=preload"}})
+				tr.Got1xxResponse(verifInterimStatus(), textproto.MIMEHeader{verifInterimHeader: []string{"</style.css>; rel=preload"}})
 			}
 		}
 	}
